@@ -44,10 +44,10 @@ S0xBsgstd+bxkeXbgza7ZBk=
 -----END PRIVATE KEY-----`
 
 type keyring struct {
-	rsaPriv *rsa.PrivateKey
-	ec      map[string]*ecdsa.PrivateKey // ES256 / ES384 / ES512
-	edPriv  ed25519.PrivateKey
-	jwks    map[string]jwk.Key // by kind: rsaPriv rsaPub ecPriv256 ecPub256 … edPriv edPub
+	rsaPriv   *rsa.PrivateKey
+	ec        map[string]*ecdsa.PrivateKey // ES256 / ES384 / ES512
+	edPriv    ed25519.PrivateKey
+	jwks      map[string]jwk.Key // by kind: rsaPriv rsaPub ecPriv256 ecPub256 … edPriv edPub
 	rsaPubPEM []byte
 	rsaJWK    []byte
 }
